@@ -309,6 +309,111 @@ Qed.
 
 End LinkLattice.
 
+(* ---- several lattice cells: each development keeps what the next one (and the FILL loop) needs -- *)
+Section Several.
+Variable surf : Type.
+Variable teqb : list R -> list R -> bool.
+Variable tr_surf : list R -> surf -> surf.
+Variable inv : list R -> @M6.vec R -> @M6.vec R.
+Variable sense : surf -> @M6.vec R -> bool.
+Hypothesis sense_tr : forall t o p, sense (tr_surf t o) p = sense o (inv t p).
+Hypothesis teqb_sound : forall a b, teqb a b = true ->
+  @M6.is_nil R a = M6.is_nil b /\ forall p, inv a p = inv b p.
+
+Notation T := (list R).
+Notation P := (@M6.vec R).
+Notation state := (state T surf).
+Notation Inv := (Inv T surf P (@M6.is_nil R) inv sense).
+
+(* the "treat LAT" loop: for each lattice cell, develop it and delete it *)
+Fixpoint lat_phase (fuel : nat) (lats : list (Z * list (@M6.new_elem R))) (s : state) : res state :=
+  match lats with
+  | [] => Ok s
+  | (k, elems) :: r =>
+      match L6.develop_state surf teqb tr_surf fuel k elems s with
+      | Err x => Err x
+      | Ok (_, s') => lat_phase fuel r (del_cell T surf s' k)
+      end
+  end.
+
+Definition ready (s : state) : Prop :=
+  fresh_ok T surf s /\ s_cache s = [] /\ all_ref_free T surf s /\ no_orig surf s.
+
+Lemma develop_state_Inv : forall fuel latkey elems (s : state) keys s',
+  Inv s -> L6.develop_state surf teqb tr_surf fuel latkey elems s = Ok (keys, s') -> Inv s'.
+Proof.
+  intros fuel latkey elems. induction elems as [|e r IH]; intros s keys s' HI H.
+  - cbn in H. inversion H; subst. exact HI.
+  - unfold L6.develop_state in H. cbn [mapM_st] in H.
+    destruct (L6.develop_step surf teqb tr_surf fuel latkey e s) as [[k s1]|] eqn:E1; [|discriminate].
+    destruct (mapM_st (L6.develop_step surf teqb tr_surf fuel latkey) r s1) as [[ks s2]|] eqn:E2; [|discriminate].
+    inversion H; subst keys s'; clear H. apply (IH s1 ks s2); [|exact E2].
+    unfold L6.develop_step in E1.
+    destruct (cell_transform T surf (@M6.is_nil R) teqb tr_surf fuel latkey (M6.ne_trnsf e) false s)
+      as [[k1 s1a]|] eqn:Ec; [|discriminate].
+    destruct (cell_transform_spec T surf P (@M6.is_nil R) teqb tr_surf inv sense sense_tr teqb_sound
+                _ _ _ _ _ _ _ HI Ec) as (HIa & _ & _).
+    destruct (dget k1 (s_cells s1a)) as [cl|] eqn:Ek; [|discriminate]. inversion E1; subst k s1.
+    exact (L6.set_cell_Inv surf inv sense s1a k1 cl (L6.elem_record cl e) Ek eq_refl HIa).
+Qed.
+
+Lemma lat_step_ready : forall fuel latkey elems (s : state) keys s',
+  ready s -> L6.develop_state surf teqb tr_surf fuel latkey elems s = Ok (keys, s') ->
+  ready (del_cell T surf s' latkey).
+Proof.
+  intros fuel latkey elems s keys s' (Hf & Hc & Hrf & Hno) H.
+  pose proof (develop_state_Inv _ _ _ _ _ _ (Inv_init T surf P (@M6.is_nil R) inv sense s Hf Hc) H) as HI.
+  destruct (develop_state_plain surf teqb tr_surf _ _ _ _ _ _ Hrf Hno H) as (Hrf' & Hno' & Hc').
+  unfold ready, Proofs.del_cell. cbn [Proofs.set_cells s_cells s_cache s_nck s_surfs s_nsk].
+  split; [|split; [congruence|split]].
+  - destruct HI as [[F1 F2] _]. split; [|exact F2]. intros k Hk. unfold Proofs.set_cells in *. cbn [s_cells s_nck] in *.
+    destruct (Z.eq_dec k latkey) as [->|Hne]; [apply dget_ddel_same|].
+    rewrite dget_ddel_other by exact Hne. apply F1. exact Hk.
+  - intros c cl H0. unfold Proofs.set_cells in H0. cbn [s_cells] in H0.
+    destruct (Z.eq_dec c latkey) as [->|Hne]; [rewrite dget_ddel_same in H0; discriminate|].
+    rewrite dget_ddel_other in H0 by exact Hne. exact (Hrf' _ _ H0).
+  - intros c cl H0. unfold Proofs.set_cells in H0. cbn [s_cells] in H0.
+    destruct (Z.eq_dec c latkey) as [->|Hne]; [rewrite dget_ddel_same in H0; discriminate|].
+    rewrite dget_ddel_other in H0 by exact Hne. exact (Hno' _ _ H0).
+Qed.
+
+Lemma lat_phase_ready : forall fuel lats (s s' : state),
+  ready s -> lat_phase fuel lats s = Ok s' -> ready s'.
+Proof.
+  intros fuel lats. induction lats as [|[k elems] r IH]; intros s s' Hr H; cbn in H.
+  - inversion H; subst. exact Hr.
+  - destruct (L6.develop_state surf teqb tr_surf fuel k elems s) as [[ks s1]|] eqn:E; [|discriminate].
+    exact (IH _ _ (lat_step_ready _ _ _ _ _ _ Hr E) H).
+Qed.
+
+(* any number of lattice cells: TRCL loop -> LAT loop -> FILL loop -> inlining *)
+Theorem pipeline_with_lattices :
+  forall fuel cf ifd ifg num den (s0 s1 sd s3 : state) lats rs cells4,
+  fresh_ok T surf s0 -> s_cache s0 = [] -> NoDup (map fst (s_cells s0)) ->
+  all_ref_free T surf s0 -> no_orig surf s0 ->
+  trcl_phase T surf (@M6.is_nil R) teqb tr_surf fuel (map fst (s_cells s0)) s0 = Ok s1 ->
+  lat_phase fuel lats s1 = Ok sd ->
+  fill_phase T surf (@M6.is_nil R) teqb tr_surf fuel cf ifd ifg sd = Ok (rs, s3) ->
+  inline_cells T fuel num den (s_cells s3) = Ok cells4 ->
+  Forall2 (Outcome T surf P (@M6.is_nil R) inv sense sd (by_universe (s_cells sd))
+                   (set_cells T surf s3 cells4))
+          (fill_keys (s_cells sd)) rs.
+Proof.
+  intros fuel cf ifd ifg num den s0 s1 sd s3 lats rs cells4 Hf Hc Hnd Hrf Hno Ht Hl Hfill Hinl.
+  destruct (trcl_phase_den T surf P (@M6.is_nil R) teqb tr_surf inv sense sense_tr teqb_sound
+              fuel _ s0 s1 Hf Hc Hnd Hrf Ht) as (Hf1 & Hc1 & _ & Hrf1 & _ & _).
+  destruct (trcl_phase_Moved T surf P (@M6.is_nil R) teqb tr_surf inv sense sense_tr teqb_sound
+              fuel s0 s1 Hf Hc Hnd Hrf Ht) as (HM & _ & _ & _).
+  assert (Hno1 : no_orig surf s1).
+  { intros c cl1 Hk. destruct (Moved_back T surf P (@M6.is_nil R) inv sense _ _ _ _ HM Hk) as (cl & g' & Hcl & ->).
+    cbn [with_geom c_orig]. exact (Hno _ _ Hcl). }
+  destruct (lat_phase_ready fuel lats s1 sd (conj Hf1 (conj Hc1 (conj Hrf1 Hno1))) Hl)
+    as (Hfd & Hcd & _ & Hnod).
+  exact (fill_inline_located T surf P (@M6.is_nil R) teqb tr_surf inv sense sense_tr teqb_sound
+           fuel cf ifd ifg num den sd s3 rs cells4 Hfd Hcd Hnod Hfill Hinl).
+Qed.
+End Several.
+
 (* ---- non-vacuity: the hypotheses of the two theorems hold on a concrete run --------------------
    (a degenerate surface instance - every surface is its own image and everything is on its
    positive side - satisfies both laws; the table, the element and the chain are concrete) *)
